@@ -553,7 +553,8 @@ def gen(rng, force=None):
         iterations = min(iterations, 2)
     case = {"kind": kind, "topo": topo, "size": size, "points": pts, "cells": cells, "clamps": clamps, "links": links,
             "method": force.get("method") or rng.choice(METHODS), "iterations": iterations,
-            "tolerance": rng.choice([0.1, 1e-3, 1e-6]), "failpoint": None, "auto": bool(auto), "calls": calls}
+            "tolerance": rng.choice([0.1, 1e-3, 1e-6]), "failpoint": None, "auto": bool(auto), "calls": calls,
+            "report": rng.random() < 0.3}
     fp = force.get("failpoint")
     if fp or (fp is None and rng.random() < 0.3):
         nsteps = len(clamps) + (len(set(range(nv)) - quad_boundary(cells)) if auto else 0)
